@@ -2,7 +2,7 @@ package checks
 
 func init() {
 	Registry["C06"] = func(c *Ctx) {
-		c.R.Rule = "directory outputs: every tree (multiset of entries per directory) with <=3 entries per directory, nesting depth <=2 and <=5 entries in total (thorough: <=4 per directory, depth <=3, <=6 in total) over the entry kinds regular file {content \"\", \"x\", \"xx\"} x {exec bit off, on}, empty directory, non-empty sub-directory, symlink {relative to a sibling, dangling, absolute}; entry names come from {\"a\",\"b\",\" sp\",\"ü\",\"-n\"} by a rotation on the tree index (every name x kind combination occurs; names are not a separate dimension); duplicate file contents and identical sibling sub-directories are part of the space. single file outputs and bin_output: content {\"\", \"x\", 70001 bytes} x exec bit x path {top level, nested, nested with unusual names}; plus 4 targets with several outputs. Each case is cached through the real Registry.WriteOutputs (real handlers, fs-backed CAS) and then restored with Registry.LoadOutputs (fresh target object) from EVERY prior destination state derivable from the case: identical, absent, parent directory missing, a file where the directory should be / a directory (empty, non-empty) where the file should be, stale extra file in each directory, stale extra directory / symlink, and for each entry: content modified (same length), grown, truncated, exec bit flipped, content modified and exec bit flipped, symlink retargeted, empty sub-directory removed, entry removed, entry replaced by another kind. One evaluation = one (case, prior state) pair. A pair is non-trivial when the recursive listing of the package directory in the prior state differs from the listing at cache time (i.e. everything except 'identical'). Declared-vs-stored mismatches (11 declarations x 4 prior states) must be rejected without touching the workspace; all of them are non-trivial."
+		c.R.Rule = "directory outputs: every tree (multiset of entries per directory) with <=3 entries per directory, nesting depth <=2 and <=5 entries in total (thorough: <=4 per directory, depth <=3, <=6 in total) over the entry kinds regular file {content \"\", \"x\", \"xx\"} x {exec bit off, on}, empty directory, non-empty sub-directory, symlink {relative to a sibling, dangling, absolute}; entry names come from {\"a\",\"b\",\" sp\",\"ü\",\"-n\"} by a rotation on the tree index (every name x kind combination occurs; names are not a separate dimension); duplicate file contents and identical sibling sub-directories are part of the space. single file outputs and bin_output: content {\"\", \"x\", 70001 bytes} x exec bit x path {top level, nested, nested with unusual names}; plus 4 targets with several outputs. Each case is cached through the real Registry.WriteOutputs (real handlers, fs-backed CAS) and then restored with Registry.LoadOutputs (fresh target object) from EVERY prior destination state derivable from the case: identical, absent, parent directory missing, a file where the directory should be / a directory (empty, non-empty) where the file should be, stale extra file in each directory, stale extra directory / symlink, and for each entry: content modified (same length), grown, truncated, exec bit flipped, content modified and exec bit flipped, symlink retargeted, empty sub-directory removed, entry removed, entry replaced by another kind. One evaluation = one (case, prior state) pair. A pair is non-trivial when the recursive listing of the package directory in the prior state differs from the listing at cache time (i.e. everything except 'identical'). Declared-vs-stored mismatches (11 declarations x 4 prior states) must be rejected without touching the workspace; all of them are non-trivial. Executable files come in modes 0755, 0744 and 0700."
 		c.R.Assume(
 			"oracle = recursive listing of the whole package directory (entry type, any-exec-bit for regular files, size + sha256 of content, symlink target, empty directories) after LoadOutputs equals the listing taken right after WriteOutputs, and LoadOutputs returns nil; permission bits other than 'executable by someone' and directory modes are not compared",
 			"bin_output: the execution path chmods the binary 0755 before caching (execution.markBinOutputExecutable); the harness does the same before WriteOutputs",
